@@ -205,8 +205,8 @@ class XmlContext:
         self.build_xsi_cache()
         choices = [
             (clazz, get_field_diff(clazz))
-            for types in self.xsi_cache.values()
-            for clazz in types
+            for types in list(self.xsi_cache.values())
+            for clazz in list(types)
             if self.local_names_match(field_names, clazz)
         ]
 
